@@ -67,7 +67,7 @@ def same_text(a, b):
 class C13(C.PipelineCheck):
     id = 'C13'
     title = 'Output is a deterministic function of sources and configuration'
-    required_covers = ('two-runs', 'verbose', 'visualize', 'decoy', 'duplicate', 'multi-payload', 'reorder', 'move')
+    required_covers = ('two-runs', 'verbose', 'visualize', 'decoy', 'duplicate', 'multi-payload', 'location', 'reorder', 'move')
 
     def bounds(self, tier):
         return {'project': 'two or three files with three commands, three structs, one enum, two events (one with an untyped payload binding); one symbolic struct name '
@@ -91,6 +91,7 @@ class C13(C.PipelineCheck):
                 yield ('decoy/%s/%d' % (mode, d), dict(kind='decoy', mode=mode, d=d))
             yield ('duplicate/%s' % mode, dict(kind='duplicate', mode=mode))
             yield ('multi-payload/%s' % mode, dict(kind='multi-payload', mode=mode))
+            yield ('location/%s' % mode, dict(kind='location', mode=mode))
             yield ('reorder/%s' % mode, dict(kind='reorder', mode=mode))
             yield ('move/%s' % mode, dict(kind='move', mode=mode))
 
@@ -178,6 +179,19 @@ class C13(C.PipelineCheck):
                 pb, rb = generate(e, dup, holes)
                 e.cover('duplicate')
                 relation = 'identical'
+            elif kind == 'location':
+                # the same sources under two locations and two spellings of the project path (absolute; relative from a directory whose
+                # own path contains a component named target / .git): the output does not depend on where the project lives
+                loc = [('/w/plain/app', '/w/plain', 'app'), ('/w/target/app', '/w/target', 'app'), ('/w/x/.git/app', '/w/x/.git', './app'), ('/w/target/app', '/', '/w/target/app')][e.choose(4)]
+                pa, ra = generate(e, base_files, holes, reference=True)
+                pb = PL.Project(base_files, holes, {'validation_library': mode})
+                wld = pb.world(loc[0])
+                wld.cwd = Str(loc[1])
+                e.order_mode = 'insertion'
+                rb = PL.run_model(I, pb, root=loc[2], out='/out', world=wld)
+                e.cover('location')
+                relation = 'identical'
+                self._loc = loc
             elif kind == 'multi-payload':
                 # one event name emitted with several payload types from two files: whatever the listener is typed with, it is the same under every schedule
                 mp = {'src/jobs.rs': C.HEADER + '#[derive(Serialize, Deserialize, Clone)]\npub struct Progress { pub done: u32 }\n#[derive(Serialize, Deserialize, Clone)]\npub struct HOLE_s { pub total: u32 }\n' +
@@ -224,6 +238,8 @@ class C13(C.PipelineCheck):
                 wb = C.witness_of(pb, m)
                 wa['files_b'] = wb['files']
                 wa['config_b'] = wb['config']
+                if kind == 'location':
+                    wa['location'] = list(self._loc)
                 return wa
             fa = {k: v for k, v in ra.outputs.items() if k.endswith('.ts')}
             fb = {k: v for k, v in rb.outputs.items() if k.endswith('.ts')}
@@ -272,7 +288,10 @@ class C13(C.PipelineCheck):
         import re
         for attempt in range(12):
             rc, oa, err, _ = PL.run_native(w['files'], w['config'])
-            rc2, ob, err2, _ = PL.run_native(w['files_b'], w['config_b'])
+            if 'location' in w:
+                ob = self.native_at(w['files_b'], w['config_b'], w['location'])
+            else:
+                rc2, ob, err2, _ = PL.run_native(w['files_b'], w['config_b'])
             ta = {k: v for k, v in oa.items() if k.endswith('.ts')}
             tb = {k: v for k, v in ob.items() if k.endswith('.ts')}
             if kind == 'file-set':
@@ -292,6 +311,31 @@ class C13(C.PipelineCheck):
             if what == 'set-differs' and sorted(x for x in a.split('\n\n') if x.strip()) != sorted(x for x in b.split('\n\n') if x.strip()):
                 return True
         return False
+
+    @staticmethod
+    def native_at(files, config, loc):
+        """generate natively with the project at <tmp><loc[0]>, the current directory <tmp><loc[1]> and the project path spelled loc[2]"""
+        import os, shutil, subprocess, tempfile
+        d = tempfile.mkdtemp(prefix='c13loc', dir=os.path.join(H.CACHE, 'tmp') if os.path.isdir(os.path.join(H.CACHE, 'tmp')) else None)
+        try:
+            for rel, src in files.items():
+                pth = os.path.join(d, loc[0].lstrip('/'), rel)
+                os.makedirs(os.path.dirname(pth), exist_ok=True)
+                open(pth, 'w', encoding='utf-8').write(src)
+            cwd = os.path.join(d, loc[1].lstrip('/')) if loc[1] != '/' else d
+            os.makedirs(cwd, exist_ok=True)
+            proj = loc[2] if not loc[2].startswith('/') else os.path.join(d, loc[2].lstrip('/'))
+            out = os.path.join(d, 'out')
+            subprocess.run([PL.CLI, 'tauri-typegen', 'generate', '-p', proj, '-o', out, '--validation', config.get('validation_library', 'none'), '--force'],
+                           cwd=cwd, stdout=subprocess.PIPE, stderr=subprocess.PIPE)
+            res = {}
+            if os.path.isdir(out):
+                for fn in os.listdir(out):
+                    if fn.endswith('.ts'):
+                        res[fn] = PL.TS_LINE.sub('Generated at: <ts>', open(os.path.join(out, fn), encoding='utf-8').read())
+            return res
+        finally:
+            shutil.rmtree(d, ignore_errors=True)
 
     def mutants(self):
         def unsorted_files(prog):
